@@ -11,6 +11,9 @@
 //!   cvbs refs block   BAM -> SAM: raw BAM header for refs + the block (block_size ++ block), through the
 //!                     autodetecting reader (lazy bam::Record) into the SAM writer;
 //!                     obs = `Ok:<hex of the line incl. LF>` | `Err`
+//!   cvf  text lines   a whole data set SAM -> BAM: header text + record lines (comma-separated hex, each with
+//!                     its LF) through the same pipeline, every record; obs = `Ok:<hex of the whole BAM stream>` |
+//!                     `Err` (model NV.Util.ConvertFile.convert_sam_bam_file)
 //!   refs = comma-separated hex names (every reference sequence has length 1000)
 //! The generated records carry no float fields (float text is an oracle of the C06 model).
 //! The oracle of both kinds: the output, read back by the target format's own reader, is the input
@@ -71,6 +74,72 @@ fn pipe(src: Vec<u8>, dst: Format) -> Result<Option<Vec<u8>>, io::Error> {
     w.finish(&header)?;
     drop(w);
     Ok(Some(sink.bytes()))
+}
+
+/// pipe every record of `src` (autodetected) into a generic writer of `dst`
+fn pipe_all(src: Vec<u8>, dst: Format) -> Result<Vec<u8>, io::Error> {
+    let mut r = alignment::io::reader::Builder::default().build_from_reader(Cursor::new(src))?;
+    let header = r.read_header()?;
+    let sink = FaultySink::new(vec![]);
+    let mut w = alignment::io::writer::Builder::default()
+        .set_format(dst)
+        .set_compression_method(None)
+        .build_from_writer(sink.clone())?;
+    w.write_header(&header)?;
+    let mut rec = alignment::Record::Sam(sam::Record::default());
+    while r.read_record(&header, &mut rec)? != 0 {
+        w.write_record(&header, &rec)?;
+    }
+    w.finish(&header)?;
+    drop(w);
+    Ok(sink.bytes())
+}
+
+fn canon_all_bam(file: Vec<u8>) -> io::Result<Vec<Vec<u8>>> {
+    let mut r = noodles_bam::io::Reader::from(Cursor::new(file));
+    let h = r.read_header()?;
+    let mut out = Vec::new();
+    for rec in r.record_bufs(&h) {
+        out.push(bam_bases(&crate::align::canon_line(&h, &rec?)?));
+    }
+    Ok(out)
+}
+
+fn canon_all_sam(file: Vec<u8>) -> io::Result<Vec<Vec<u8>>> {
+    let mut r = sam::io::Reader::new(Cursor::new(file));
+    let h = r.read_header()?;
+    let mut out = Vec::new();
+    for rec in r.record_bufs(&h) {
+        out.push(bam_bases(&crate::align::canon_line(&h, &rec?)?));
+    }
+    Ok(out)
+}
+
+fn run_cvf(c: &Case) -> Obs {
+    let text = c.b(0);
+    let lines: Vec<Vec<u8>> = if c.args[1] == "_" { vec![] } else { c.args[1].split(',').map(nv::unhex).collect() };
+    let mut file = text.clone();
+    for l in &lines {
+        file.extend_from_slice(l);
+    }
+    let f2 = file.clone();
+    let out = match guarded(std::panic::AssertUnwindSafe(move || pipe_all(f2, Format::Bam))) {
+        Outcome::Panicked(_) => return Obs::ok("Panic", true),
+        Outcome::Done(Err(_)) => return Obs::ok("Err", false),
+        Outcome::Done(Ok(out)) => out,
+    };
+    let obs = format!("Ok:{}", hex(&out));
+    let a = guarded(std::panic::AssertUnwindSafe(move || canon_all_sam(file)));
+    let b = guarded(std::panic::AssertUnwindSafe(move || canon_all_bam(out)));
+    match (a, b) {
+        (Outcome::Done(Ok(a)), Outcome::Done(Ok(b))) => match crate::common::first_diff(&a, &b) {
+            Some(d) => Obs::fail(obs, "convert-sam-to-bam-file-changes-records", d),
+            None => Obs::ok(obs, !lines.is_empty()),
+        },
+        (Outcome::Done(Err(_)), _) => Obs::ok(obs, false),
+        (_, Outcome::Done(Err(e))) => Obs::fail(obs, "convert-sam-to-bam-file-output-unreadable", format!("{} {e}", nv::errkind(&e))),
+        _ => Obs::fail(obs, "convert-reader-panic", "a format reader panicked on the conversion's input or output"),
+    }
 }
 
 pub fn sam_to_bam(refs: &[Vec<u8>], line: &[u8]) -> String {
@@ -232,6 +301,17 @@ fn mutate(rng: &mut Rng, line: &str) -> String {
 
 pub fn generate(rng: &mut Rng, tier: &str, w: &mut CaseWriter) {
     let thorough = tier == "thorough";
+    // whole data sets: every header mode x record counts
+    for i in 0..(if thorough { 120 } else { 16 }) {
+        let nrec = [0usize, 1, 3, 8][i % 4];
+        let spec = crate::align::gen_spec(rng.next(), nrec, (i as u64 / 4) % 4, 0);
+        let lines: Vec<String> = spec.lines.iter().map(|l| {
+            let mut t = strip_floats(l).into_bytes();
+            t.push(b'\n');
+            hex(&t)
+        }).collect();
+        w.push("cvf", vec![hex(spec.header_text.as_bytes()), if lines.is_empty() { "_".into() } else { lines.join(",") }]);
+    }
     let n = if thorough { 1200 } else { 120 };
     let fixed: Vec<(Vec<Vec<u8>>, String)> = vec![
         (vec![b"sq0".to_vec()], "r0\t0\tsq0\t3\t30\t4M\t*\t0\t0\tGTTG\tIIII".into()),
@@ -259,5 +339,5 @@ pub fn generate(rng: &mut Rng, tier: &str, w: &mut CaseWriter) {
 }
 
 pub fn run(c: &Case) -> Obs {
-    run_cv(c)
+    if c.kind == "cvf" { run_cvf(c) } else { run_cv(c) }
 }
